@@ -7,6 +7,9 @@ from core.runner import Prop
 from . import mp_common as mp
 
 
+SWEEP = ["1", "3/4", "0", "1/2", "1", "1/4"]
+
+
 def _fresh(x):
     """an equal but separately created object (callers name the root by value, not by handing back the graph's own object)"""
     return int(str(x)) if isinstance(x, int) and not isinstance(x, bool) else x
@@ -106,8 +109,18 @@ class C15(Prop):
                     u[v] = (0 if pt["zero_as"] == "int" else Fraction(0)) if x == 0 else (1 if x == 1 and pt["zero_as"] == "int" else x)
                 Hn = mp.build_nx(case["nodes"], case["edges"], case.get("name", "num"), u=u)
                 numeric.append(rs(Fraction(AutomatedEquation().automated_equation(Hn, Fraction(pt["phi"]), _fresh(case["root"])))))
+            # one evaluator asked for the same motif at several occupation probabilities, starting at exactly 1 and passing through
+            # exactly 0: every answer is the expectation at ITS phi, whatever was asked before
+            shared = []
+            if case.get("points"):
+                pt = case["points"][0]
+                u = {v: Fraction(pt["u"][str(v)]) for v in case["nodes"]}
+                AE3 = AutomatedEquation()
+                for phi in SWEEP:
+                    Hn = mp.build_nx(case["nodes"], case["edges"], case.get("name", "num"), u=u)
+                    shared.append(rs(Fraction(AE3.automated_equation(Hn, Fraction(phi), _fresh(case["root"])))))
             return {"poly": mp.poly_canon(val), "components": sorted(sorted(c) for c in comps),
-                    "n_components": len(comps), "numeric": numeric}
+                    "n_components": len(comps), "numeric": numeric, "numeric_shared": shared}
         AE = AutomatedEquation()
         vals, fresh = [], []
         for c in case["calls"]:
@@ -150,6 +163,15 @@ class C15(Prop):
                 if abs(Fraction(got) - want) > Fraction(1, 10 ** 11):      # the accumulator of the real code is a float
                     f.append(f"expectation-at-point: at phi = {pt['phi']}, u = {pt['u']} the value is {got}, the exact expectation is {want}")
                     break
+            if obs.get("numeric_shared") and case.get("points"):
+                pt = case["points"][0]
+                for phi, got in zip(SWEEP, obs["numeric_shared"]):
+                    want = exact_numeric(case["nodes"], [tuple(e) for e in case["edges"]], case["root"],
+                                         {v: Fraction(pt["u"][str(v)]) for v in case["nodes"]}, Fraction(phi))
+                    if abs(Fraction(got) - want) > Fraction(1, 10 ** 11):
+                        f.append(f"history: one evaluator asked at phi = {', '.join(SWEEP)} in turn answers {got} at phi = {phi}, "
+                                 f"the exact expectation is {want} (u = {pt['u']})")
+                        break
             return f
         for k, (v, fr) in enumerate(zip(obs["polys"], obs["fresh"])):
             if v != fr:
